@@ -19,6 +19,10 @@ pub enum Mutation {
     BlobVersion(usize),
     /// add 1 to the version bits of this index header
     IndexVersion(usize),
+    /// open the directory with ANOTHER bloom configuration than the one its index files were written with (off <-> on,
+    /// other size): filters may never change an answer. With `extend` new blobs are then written and closed under the new
+    /// configuration (old and new filter formats meet in one filter group) and the directory is reopened lazily.
+    OtherBloom { extend: bool },
 }
 
 #[derive(Clone, Debug, Serialize, Deserialize)]
@@ -96,6 +100,14 @@ pub fn run_compat(c: &CompatCase, dir: &Path, verif_dir: &Path, _findings: &Find
     match &c.mutation {
         Mutation::None => {}
         Mutation::KeyLen(k) => cfg.keylen = *k,
+        Mutation::OtherBloom { .. } => {
+            cfg.bloom = match cfg.bloom {
+                Bloom::None => Bloom::Odd,
+                Bloom::Tiny => Bloom::K80,
+                Bloom::Odd => Bloom::None,
+                _ => Bloom::Odd,
+            };
+        }
         Mutation::BlobVersion(b) => {
             let p = sut::blob_path(dir, *b);
             let mut bytes = std::fs::read(&p).map_err(|e| Failure { clause: "harness/read".into(), detail: e.to_string(), step: 0, op: String::new() })?;
@@ -167,13 +179,59 @@ pub fn run_compat(c: &CompatCase, dir: &Path, verif_dir: &Path, _findings: &Find
         let wide = exp["keyfn"].as_str() == Some("wide");
         let mut s = s;
         // stage 0: filters as loaded; stage 1, 2: bloom buffers off-loaded at level 0 / every level (probed from the pinned index files)
-        let stages: &[&str] = if cfg.bloom == Bloom::None { &["loaded"] } else { &["loaded", "offloaded-l0", "offloaded-all"] };
-        for (stage_no, stage) in stages.iter().enumerate() {
-        if stage_no == 1 {
-            s.offload(usize::MAX, 0).await;
-            labels.insert("filters_offloaded".to_string());
-        } else if stage_no == 2 {
-            s.offload(usize::MAX, 100).await;
+        let mut stages: Vec<&str> = if cfg.bloom == Bloom::None { vec!["loaded"] } else { vec!["loaded", "offloaded-l0", "offloaded-all"] };
+        let extend = matches!(c.mutation, Mutation::OtherBloom { extend: true });
+        if extend {
+            stages.push("extended");
+            stages.push("extended-reopened");
+        }
+        for stage in stages.iter() {
+        match *stage {
+            "offloaded-l0" => {
+                s.offload(usize::MAX, 0).await;
+                labels.insert("filters_offloaded".to_string());
+            }
+            "offloaded-all" => {
+                s.offload(usize::MAX, 100).await;
+            }
+            "extended" => {
+                // new blobs under the new filter configuration: more than one filter group's worth, each closed and dumped
+                for b in 0..(cfg.group as u8 + 2) {
+                    let kb = if wide { wide_key_bytes(keylen, 60_000 + b as u16) } else { key_bytes(keylen, 200 + b) };
+                    if let Err(e) = s.write(&kb, bytes::Bytes::from(vec![b; 9]), 1, None).await {
+                        return fail("compat/write-err", format!("{}: {:#}", c.dir, e));
+                    }
+                    let _ = s.try_close_active().await;
+                    let _ = s.try_create_active().await;
+                }
+                let _ = sut::wait_quiet(s.as_ref(), true, crate::interp::max_wait()).await;
+                labels.insert("extended_under_other_filter_config".to_string());
+            }
+            "extended-reopened" => {
+                if let Err(e) = s.close().await {
+                    return fail("close/err", format!("{:#}", e));
+                }
+                s = match sut::open(&cfg, dir, true).await {
+                    Ok(s) => s,
+                    Err(e) => return fail("compat/init-err", format!("{} (after the extension, lazy): {:#}", c.dir, e)),
+                };
+            }
+            _ => {}
+        }
+        if stage.starts_with("extended") {
+            // the records written under the new configuration are served as well (old and new filters share groups)
+            for b in 0..(cfg.group as u8 + 2) {
+                let kb = if wide { wide_key_bytes(keylen, 60_000 + b as u16) } else { key_bytes(keylen, 200 + b) };
+                stats.queries += 2;
+                match s.read(&kb).await {
+                    Ok(RR::Found(d)) if d == vec![b; 9] => {}
+                    Ok(other) => return fail("compat/new-record-not-served", format!("{} ({}): record {} written under the other filter configuration reads {}", c.dir, stage, b, show_rr(&other))),
+                    Err(e) => return fail("compat/read-err", format!("{} ({}): {:#}", c.dir, stage, e)),
+                }
+                if s.check_filters(&kb).await == Some(false) {
+                    return fail("compat/new-record-filtered-out", format!("{} ({}): check_filters denies record {} written under the other filter configuration", c.dir, stage, b));
+                }
+            }
         }
         for kv in exp["keys"].as_array().cloned().unwrap_or_default() {
             let ki = kv["key"].as_u64().unwrap_or(0) as u16;
@@ -228,7 +286,7 @@ pub fn run_compat(c: &CompatCase, dir: &Path, verif_dir: &Path, _findings: &Find
         }
         }
         let counts = json!({"records_count": s.records_count().await, "blobs_count": s.blobs_count().await, "next_blob_id": s.next_blob_id()});
-        if counts != exp["counts"] {
+        if counts != exp["counts"] && !extend {
             return fail("compat/counts", format!("{}: got {} recorded {}", c.dir, counts, exp["counts"]));
         }
         // index files regenerated by the current code are byte-identical to the ones the pinned code wrote
@@ -282,6 +340,9 @@ pub fn enumerate(verif_dir: &Path) -> Vec<CompatCase> {
                 }
             }
         }
+        for (lazy, extend) in [(false, false), (true, false), (false, true), (true, true)] {
+            out.push(CompatCase { dir: d.clone(), removed: vec![], lazy, mutation: Mutation::OtherBloom { extend }, rt_workers: 2 });
+        }
         for b in &blobs {
             out.push(CompatCase { dir: d.clone(), removed: vec![], lazy: false, mutation: Mutation::BlobVersion(*b), rt_workers: 2 });
             out.push(CompatCase { dir: d.clone(), removed: vec![], lazy: true, mutation: Mutation::BlobVersion(*b), rt_workers: 2 });
@@ -309,7 +370,7 @@ pub fn run(ctx: &RunCtx) -> PropResult {
     PropResult {
         report,
         level: "exploration",
-        rule: "Cross-version differential over a committed corpus: 15 directories written by the pinned tree (8fcb7aa, hooks off): 3 with key sizes 32 / 128 / 8 and timestamps from {0, 1, 3, 2^33+5, 2^33+6, u64::MAX-1, u64::MAX}, 9 small ones with key sizes 4/8/33, bloom none / 100-bit / 1237-bit / 80 000-bit, group sizes 2-8, 2-4 blobs, deletion markers, metadata, values across both write-path thresholds, and 3 'tree' directories (key sizes 8/33/400, 245-533 records over 2-3 blobs) whose index files have one to three levels of inner B+tree nodes; each with expected.json recording every answer the pinned code gave (read, contains, read_all_with_deletion_marker with every entry loaded, read_with x 3 metas, counts). Enumerated exhaustively: every subset of removed index files x eager/lazy init; opening with each other key size (with and without index files); version bump of every blob header; version bump of every index header. Oracle: answers equal expected.json for every present/absent index combination - with the filters as loaded and again after off-loading the bloom buffers (level 0, then all levels), so that in-file filter probing of pinned index files is exercised - and after an index-version bump (the index is regenerated); index files rebuilt by the current code are byte-identical to the ones the pinned code wrote; a bumped blob version makes init fail; another key size never yields a successful read (init error, or everything quarantined with records_count 0). Non-trivial = at least one index removed or a mutation applied. distinct = FNV hash of the serialized case; the enumeration is complete for this corpus.".into(),
+        rule: "Cross-version differential over a committed corpus: 15 directories written by the pinned tree (8fcb7aa, hooks off): 3 with key sizes 32 / 128 / 8 and timestamps from {0, 1, 3, 2^33+5, 2^33+6, u64::MAX-1, u64::MAX}, 9 small ones with key sizes 4/8/33, bloom none / 100-bit / 1237-bit / 80 000-bit, group sizes 2-8, 2-4 blobs, deletion markers, metadata, values across both write-path thresholds, and 3 'tree' directories (key sizes 8/33/400, 245-533 records over 2-3 blobs) whose index files have one to three levels of inner B+tree nodes; each with expected.json recording every answer the pinned code gave (read, contains, read_all_with_deletion_marker with every entry loaded, read_with x 3 metas, counts). Enumerated exhaustively: every subset of removed index files x eager/lazy init; opening with each other key size (with and without index files); opening with ANOTHER bloom configuration than the files were written with (off <-> on, other size), optionally writing and closing group-size + 2 new blobs under it and reopening lazily - every recorded answer must still hold; version bump of every blob header; version bump of every index header. Oracle: answers equal expected.json for every present/absent index combination - with the filters as loaded and again after off-loading the bloom buffers (level 0, then all levels), so that in-file filter probing of pinned index files is exercised - and after an index-version bump (the index is regenerated); index files rebuilt by the current code are byte-identical to the ones the pinned code wrote; a bumped blob version makes init fail; another key size never yields a successful read (init error, or everything quarantined with records_count 0). Non-trivial = at least one index removed or a mutation applied. distinct = FNV hash of the serialized case; the enumeration is complete for this corpus.".into(),
         assumptions: {
             let mut a = common_assumptions();
             a.push("covers only formats the pinned tree can write; the corpus is small by construction (tools/corpusgen is its generator, kept for provenance)".into());
